@@ -91,21 +91,28 @@ Print Assumptions gitignore_file_eq_git.
        components: the walker model visits the entry iff git leaves it unignored — composing the line theorem
        with last-match-wins, directory-only, "a deeper ignore file overrides a shallower one" (nearest first)
        and "nothing beneath an ignored directory is visited".  Hence for every finite tree (list of entries)
-       the listing of the walker model is git's listing. *)
-Theorem rg_model_visited_eq_git_visited :
+       the listing of the walker model is git's listing.
+       PARTIAL with respect to the target "every line of the documented grammar": the hypothesis is membership
+       of every line in the executable class line_class.  Missing lemma (stated, not proved; tested on every
+       generated line, see coverage line_class in evidence/C04.json):
+         grammar_lines_in_class : forall ci gl, gline_ok gl = true -> line_class ci (render_line gl) = true
+       i.e. both line readers on the text of a grammar line produce the segment form.  Its glob-parser half is
+       proved (Props/C12.v parse_documented_syntax); the add_line wrapper (blank trimming, `!`, `/`, trailing
+       `/`, `**/` and `/*` rewriting) and git's reader on rendered text are not. *)
+Theorem rg_model_visited_eq_git_visited_partial :
   forall (ci : bool) (igs : list (list bytes * list bytes)) (path : list bytes) (is_dir : bool),
     igs_in_class ci igs -> Forall comp_ok path ->
     visited re_spec (parse_igs ci igs) path is_dir = git_visited ci igs path is_dir.
 Proof. exact tree_rg_eq_git_proof. Qed.
-Print Assumptions rg_model_visited_eq_git_visited.
+Print Assumptions rg_model_visited_eq_git_visited_partial.
 
-Theorem rg_model_listing_eq_git_listing :
+Theorem rg_model_listing_eq_git_listing_partial :
   forall (ci : bool) (igs : list (list bytes * list bytes)) (entries : list (list bytes * bool)),
     igs_in_class ci igs -> Forall (fun e => Forall comp_ok (fst e)) entries ->
     filter (fun e => visited re_spec (parse_igs ci igs) (fst e) (snd e)) entries =
     filter (fun e => git_visited ci igs (fst e) (snd e)) entries.
 Proof. exact tree_listing_eq_git_proof. Qed.
-Print Assumptions rg_model_listing_eq_git_listing.
+Print Assumptions rg_model_listing_eq_git_listing_partial.
 
 (* every construct of the documented grammar on a representative line is in the class (both case modes), and the
    excluded shapes are not: class admitting '/', braces, "//", unclosed class *)
@@ -178,7 +185,7 @@ Check gitignore_line_eq_git :
   forall (ci : bool) (line : bytes) (rel : list bytes) (is_dir : bool),
     line_class ci line = true -> rel <> [] -> Forall comp_ok rel ->
     rg_line re_spec ci line rel is_dir = git_line ci line rel is_dir.
-Check rg_model_visited_eq_git_visited :
+Check rg_model_visited_eq_git_visited_partial :
   forall (ci : bool) (igs : list (list bytes * list bytes)) (path : list bytes) (is_dir : bool),
     igs_in_class ci igs -> Forall comp_ok path ->
     visited re_spec (parse_igs ci igs) path is_dir = git_visited ci igs path is_dir.
